@@ -27,6 +27,7 @@ Decided clause:
   R5.7 (E2 who-may-call) primitive-specific units of crypto_box / crypto_scalarmult / crypto_kx / crypto_secretbox never call the
        generic front end of their own operation: `crypto_box_beforenm` from the XChaCha20 box is the HSalsa20 derivation, so the
        one-shot and the precomputed API would disagree on the shared key.
+  R5.10 (E12) has_small_order (ref10) narrows its accumulated differences only where the dropped bits are known zero.
   R5.9 (E17) fe51_pack.S: the mask that selects the final subtraction of p depends on all five limbs of the value being encoded.
   R5.8 (E12) in the X25519 units (incl. the field arithmetic inlined from the private headers) no carry / shifted limb is identically
        zero: a limb masked before its carry is taken makes the ladder's result wrong whenever that limb overflows.
@@ -97,6 +98,8 @@ def run(ctx, chk):
     knownbits.dead_carry_rule(prog, chk, "R5.8", ("crypto_scalarmult/curve25519/",), floor=20,
                               allowed=[("_sodium_scalarmult_curve25519_sandy2x_fe_frombytes",
                                         "sandy2x decoder: h9 has 25 bits by construction, `carry9 = h9 >> 25` is zero by design")])
+    # R5.10: the portable backend's low-order rejection looks at whole words
+    small_order_rule(prog, chk, "R5.10")
     # R5.9: the canonical encoding of the assembly backend: the final conditional subtraction of p is decided from all five limbs (E17)
     from .. import asmstr
     asmstr.freeze_rule(prog, chk, "R5.9", "crypto_scalarmult/curve25519/sandy2x/fe51_pack.S")
@@ -329,3 +332,12 @@ def clamp_rule(ctx, prog, chk):
             chk.ob("R5.4", fn, "every other %s bit can influence the computation" % what, not blind,
                    detail="(byte, bit) %s never reach a use" % blind[:12] if blind else "", key="R5.4 %s %s used-bits" % (name, what))
     chk.floor("R5.4", "(ladder entry, operand, byte, bit) flows analysed", n, 512)
+
+
+
+def small_order_rule(prog, chk, rule):
+    """the low-order rejection of the portable X25519 backend compares the *whole* encoding (bit 255 masked) with its blocklist: no
+    narrowing on the way from the accumulated differences to the verdict drops bits that may be set (E12). A comparison that drops
+    part of a word rejects valid points that agree with a blocklisted one on the remaining bits - on this backend only."""
+    from .. import knownbits
+    knownbits.lossless_trunc_rule(prog, chk, rule, [("has_small_order", "crypto_scalarmult/curve25519/ref10/")], floor=2)
